@@ -249,7 +249,10 @@ class Check:
         for s in res.get("shapes", []):
             self.shape(s)
         for k, v in res.get("counters", {}).items():
-            self.count(k, v)
+            if k.startswith("max_"):
+                self.counters[k] = max(self.counters.get(k, 0), v)
+            else:
+                self.count(k, v)
         for v in res.get("violations", []):
             self.violation(v["sig"], v["detail"], res.get("spec"))
         for r in res.get("inconclusive", []):
